@@ -110,6 +110,10 @@ def check_workspace(ctx, files, tag):
                         return
                 if exp:
                     ctx.count("declarations_with_references")
+        # the folder-level handlers model (coq/Model/Folder.v) on the compiler's binding relation, against the server
+        from . import handlers_tie
+        if not handlers_tie.run(ctx, srv, b, texts, inp, kinds=(0, 1), per_module=(60 if ctx.thorough else 30)):
+            return
         if not srv.alive():
             ctx.violation("the language server exited during definition/references requests", inp, "alive", "".join(srv.stderr[-5:]))
         ctx.count("workspaces")
